@@ -119,7 +119,14 @@ def items():
 """),
         Fn(CTX, "should_collapse_simple_functions", impl_of="Context", mode="stub", proved_in="ctx"),
         Fn(CTX, "should_collapse_simple_conditionals", impl_of="Context", mode="stub", proved_in="ctx"),
-        Fn(FUN, "block_contains_nested_function", mode="stub", note="looks into the expressions of the one statement; counts nothing"),
+        Fn(FUN, "function_call_contains_nested_function", mode="stub", note="iterator over the suffixes of a call: layout only"),
+        Fn(FUN, "block_contains_nested_function", contract="""
+    requires block_len(block) == 0 || one_simple_statement(block),   // its callers ask is_block_empty / is_block_simple first (short-circuit): proved at the call site
+""", edits=[DebugAsserts()] + stmts_holes() + [
+            Hole("assignment.variables().iter().any(var_contains_nested_function) || assignment.expressions().iter().any(contains_nested_function)", "hole_bool()", why="iterator chains over the variables and values of the assignment: layout only"),
+            Hole("assignment.expressions().iter().any(contains_nested_function)", "hole_bool()", why="iterator chain over the values of the local assignment: layout only"),
+            Hole("Some(LastStmt::Return(r#return)) => r#return.returns().iter().any(contains_nested_function),", "Some(LastStmt::Return(vx_return)) => hole_bool(),", why="iterator chain over the returned values: layout only (the raw identifier r#return is not named: this Verus panics while encoding it)"),
+        ], note="every statement kind is_block_simple accepts has an arm: the `unreachable!` arm is an obligation (D48, seed C07-4)"),
         Fn(FUN, "should_collapse_function_body", contract="""
     ensures r ==> block_len(&fb_block(function_body)) == 0 || one_simple_statement(&fb_block(function_body)), //# C02.collapsed_function_is_one_statement
             r ==> !has_comments(NodeKey::Other(other_key(fb_block(function_body)))) && !fb_paren_trail_comments(function_body) && !fb_end_lead_comments(function_body), //# C03.collapsed_function_has_no_comments
